@@ -687,6 +687,8 @@ func runC07(r *harness.Run) {
 	}
 	sort.Strings(cl)
 	r.Extra["distinct_issue_classes"] = cl
+	// the program families of C01-C04, C05 (error values) and C17: compile and verify
+	c07ProgramFamilies(r)
 }
 
 // ---- replay -----------------------------------------------------------------------------------------
